@@ -56,7 +56,7 @@ Print Assumptions C11_arm64_plus_128MiB_leak_refuted.
 (* the constants of the model's encoder are those of the current Rust source (gen/SrcConsts.v is regenerated from it on every run) *)
 From Inj Require Import SrcTieAlloc SrcTieArm64.
 From Inj.gen Require Import SrcConsts.
-Theorem C11_source_allocator : RANGE = LINUX_MAX_RANGE /\ forall oc, c_alloc (cfg_amd64 oc) = alloc_jit (ALLOC_STRICT =? 1).
+Theorem C11_source_allocator : RANGE = LINUX_MAX_RANGE /\ (ALLOC_STRICT =? 1) = true /\ forall oc, c_alloc (cfg_amd64 oc) = alloc_jit (ALLOC_STRICT =? 1).
 Proof. exact src_alloc. Qed.
 Print Assumptions C11_source_allocator.
 Theorem C11_source_arm64_range : forall func jit, entry_linux ARM64_BRANCH_HI func jit =
